@@ -40,8 +40,10 @@ base = os.path.abspath(sys.argv[1])
 dirs = [os.path.join(base, n) for n in sorted(os.listdir(base))
         if os.path.exists(os.path.join(base, n, 'patch.diff')) and (len(sys.argv) < 3 or any(n.startswith(a) for a in sys.argv[2:]))]
 bad = 0
+results = {}
 with ThreadPoolExecutor(max_workers=int(os.environ.get('JOBS', '4'))) as ex:
     for name, out, info in ex.map(one, dirs):
+        results[name] = 'error' if out is None else ('silent' if not out else {c: rc for c, rc, lines in out})
         if out is None:
             print('%-14s ERROR %s' % (name, info)); bad += 1
         elif not out:
@@ -53,4 +55,6 @@ with ThreadPoolExecutor(max_workers=int(os.environ.get('JOBS', '4'))) as ex:
                 for l in lines:
                     print('      ' + l[:260])
         sys.stdout.flush()
+if os.environ.get('RESULTS'):
+    json.dump(results, open(os.environ['RESULTS'], 'w'), indent=0, sort_keys=True)
 sys.exit(1 if bad else 0)
